@@ -14,6 +14,7 @@ import (
 
 	"github.com/jamf/regatta/verifvp/vp"
 
+	c01pkg "verif/harness/checks/c01"
 	. "verif/harness/cmdx"
 	"verif/harness/evid"
 	"verif/harness/fsmx"
@@ -439,6 +440,20 @@ func Run(r *evid.Run) {
 	mc.Desc = fsmx.CmdStr(mc.txn(preds, ops))
 	r.Sample(mc)
 	runVisibility(r)
+	// transactions over pending writes of the same apply call, for every pair of key lengths 1..20
+	// (the sweep lives in C01: plain puts, then a transaction with a range predicate and reads, counted
+	// deletes ... in ONE call); only the transaction results are C02's
+	const maxLen = 20
+	par.For(int64(maxLen*maxLen*2), r.Expired, func(i int64) {
+		c := c01pkg.Case{Kind: "lengths", Lo: int(i%maxLen) + 1, Hi: int(i/maxLen%maxLen) + 1, Flags: int(i / maxLen / maxLen)}
+		sigs, details := c01pkg.RunLengthsExt(c)
+		r.Outcome(fmt.Sprint("lengths", c.Lo, c.Hi, c.Flags, len(sigs)), true)
+		for k, sg := range sigs {
+			if strings.HasSuffix(sg, "/TXN") {
+				r.Violate("txn/"+sg, details[k], map[string]any{"kind": "lengths", "l1": c.Lo, "l2": c.Hi, "order": c.Flags})
+			}
+		}
+	})
 	r.Assume("durable atomicity of a transaction under crashes is decided by C04; visibility to concurrent readers is explored at statement granularity of regatta's code (scheduling point before every statement of Update/handleTxn/handleTxnOps/EnsureIndexed/Commit and of the read path, up to the preemption bound in visibility_preemption_bound); pebble's own batch commit runs atomically between two points")
 }
 
